@@ -2,7 +2,7 @@
 
 use super::Mesh;
 use crate::{Point3, Result};
-use std::collections::{HashMap, HashSet};
+use std::collections::HashMap;
 
 pub struct MeshEdges<'a> {
     /// The original mesh associated with the edge structure
@@ -135,29 +135,58 @@ pub fn unique_edges(all_edges: &[[u32; 2]]) -> Vec<([u32; 2], usize)> {
     unique_count
 }
 
-fn boundary_loops(boundary_map: HashMap<u32, u32>) -> Vec<Vec<u32>> {
+/// Assemble the boundary edges (each given as the directed pair of vertices it has in the one face
+/// that uses it) into closed loops of vertices, using every edge exactly once.
+///
+/// Every vertex has an even number of boundary edges, so a walk that leaves a vertex over an unused
+/// edge can only get stuck where it started, which closes a loop. The walk follows the direction
+/// of the edges where it can, so a consistently wound mesh gives the same loops as its directed
+/// boundary, but it does not depend on it: faces with inconsistent winding, or faces which touch
+/// only at a vertex (several loops through one vertex), still produce closed loops.
+fn boundary_loops(boundary_edges: &[[u32; 2]]) -> Vec<Vec<u32>> {
+    // For each vertex, the boundary edges which touch it
+    let mut incident: HashMap<u32, Vec<usize>> = HashMap::new();
+    for (i, edge) in boundary_edges.iter().enumerate() {
+        incident.entry(edge[0]).or_default().push(i);
+        incident.entry(edge[1]).or_default().push(i);
+    }
+
+    let mut used = vec![false; boundary_edges.len()];
     let mut all_loops = Vec::new();
-    let mut working = Vec::new();
-    let mut queue: HashSet<u32> = boundary_map.keys().copied().collect();
 
-    while !queue.is_empty() {
-        #[cfg(feature = "verif")]
-        crate::verif_hooks::tick("edges::boundary_loops");
-        if let Some(last_id) = working.last() {
-            let next_id = boundary_map[last_id];
-            queue.remove(&next_id);
-
-            if *working.first().unwrap() == next_id {
-                working.reverse();
-                all_loops.push(working);
-                working = Vec::new();
-            } else {
-                working.push(next_id);
-            }
-        } else {
-            let start_id = *queue.iter().next().unwrap();
-            working.push(start_id);
+    for first in 0..boundary_edges.len() {
+        if used[first] {
+            continue;
         }
+
+        used[first] = true;
+        let start_id = boundary_edges[first][0];
+        let mut working = vec![start_id];
+        let mut current = boundary_edges[first][1];
+
+        while current != start_id {
+            working.push(current);
+
+            // Prefer an unused edge which leaves the current vertex, otherwise take any unused
+            // edge which touches it
+            let candidates = &incident[&current];
+            let next_edge = candidates
+                .iter()
+                .find(|&&i| !used[i] && boundary_edges[i][0] == current)
+                .or_else(|| candidates.iter().find(|&&i| !used[i]));
+
+            if let Some(&i) = next_edge {
+                used[i] = true;
+                let edge = boundary_edges[i];
+                current = if edge[0] == current { edge[1] } else { edge[0] };
+            } else {
+                // Cannot happen while every vertex has an even number of boundary edges
+                break;
+            }
+        }
+
+        working.reverse();
+        all_loops.push(working);
     }
 
     all_loops
@@ -187,7 +216,7 @@ fn identify_edges(faces: &[[u32; 3]]) -> Result<(Vec<[u32; 2]>, Vec<[u32; 3]>, V
         .collect();
 
     // Let's remap the face edges to the unique edges and build the boundary map at the same time
-    let mut boundary_map = HashMap::new();
+    let mut boundary_edges = Vec::new();
     let mut face_edges = Vec::new();
     for face_chunk in direct_edges.chunks(3) {
         let i0 = to_unique_index[&edge_key(&face_chunk[0])];
@@ -196,17 +225,17 @@ fn identify_edges(faces: &[[u32; 3]]) -> Result<(Vec<[u32; 2]>, Vec<[u32; 3]>, V
         face_edges.push([i0 as u32, i1 as u32, i2 as u32]);
 
         if unique_edge_count[i0].1 == 1 {
-            boundary_map.insert(face_chunk[0][0], face_chunk[0][1]);
+            boundary_edges.push(face_chunk[0]);
         }
         if unique_edge_count[i1].1 == 1 {
-            boundary_map.insert(face_chunk[1][0], face_chunk[1][1]);
+            boundary_edges.push(face_chunk[1]);
         }
         if unique_edge_count[i2].1 == 1 {
-            boundary_map.insert(face_chunk[2][0], face_chunk[2][1]);
+            boundary_edges.push(face_chunk[2]);
         }
     }
 
-    let loops = boundary_loops(boundary_map);
+    let loops = boundary_loops(&boundary_edges);
     let edges = unique_edge_count.iter().map(|(edge, _)| *edge).collect();
 
     Ok((edges, face_edges, loops))
